@@ -84,6 +84,17 @@ def _program(rng):
             st.append(('emit', rng.choice((e, ('mx_is_symmetric', e), ('mx_transpose', e)))))
         elif k < 0.94:
             st.append(('emit', ('uexpr_as_symbolic', ('uexpr_mul', ('uexprpoly', X, (0, '$f'), (2, I(3))), ('uexprpoly', X, (1, I(1)), (3, Y))))))
+        elif k < 0.955:
+            # sparse / dense matrices
+            r_, c_ = rng.randint(1, 5), rng.randint(1, 5)
+            ntr = rng.randint(0, 6)
+            rows = tuple(str(rng.randrange(r_)) for _ in range(ntr))
+            cols = tuple(str(rng.randrange(c_)) for _ in range(ntr))
+            vals = tuple(rng.choice((I(0), I(1), I(-2), FR(R(1, 2)), X)) for _ in range(ntr))
+            st.append(('let', 'A', ('csr_from_coo', r_, c_, rows, cols, vals) if rng.random() < 0.7 else ('csr_empty', r_, c_)))
+            for _ in range(rng.choice((1, 2, 4))):
+                st.append(('let', 'A', ('csr_set', '$A', rng.randrange(r_), rng.randrange(c_), rng.choice((I(0), I(0), I(3), FR(R(-1, 3)), Y)))))
+            st.append(('emit', rng.choice((('csr_to_dense', '$A'), ('csr_transpose', '$A'), ('csr_is_canonical', '$A'), ('csr_get', '$A', rng.randrange(r_), rng.randrange(c_))))))
         elif k < 0.97:
             st.append(('emit', ('free_symbols', '$e')))
             st.append(('emit', ('coeff', ('expand', '$e'), v, I(1))))
